@@ -26,10 +26,15 @@ LEVEL = "model_checking"
 SCEN = ["torn", "private", "bundle", "three", "mixed", "attr", "conn", "xtype"]
 
 
+def PEER(s):
+    """the peer address of session s: every session comes from the SAME host, from its own port"""
+    return ("10.0.0.1", 5000 + s)
+
+
 def final_table(nsess):
     """the Connection Manager's Forward Open table at the end: [session, connection serial] pairs (sessions by their peer address)"""
     from .. import vsock
-    return [[s, ser] for s in range(1, nsess + 1) for ser in vsock.open_connections(("10.0.0.%d" % s, 5000 + s))]
+    return [[s, ser] for s in range(1, nsess + 1) for ser in vsock.open_connections(PEER(s))]
 
 
 def exec_schedule(job):
@@ -66,12 +71,16 @@ def exec_schedule(job):
                 oid = ids[(s, i)]
                 evs.append({"e": "inv", "id": oid})
                 try:
+                    if q.get("kind") == "end":          # the peer is gone: the server runs its end-of-session processing (an empty request)
+                        logix.process(PEER(s), data=cpppo.dotdict(), **kw)
+                        evs.append({"e": "resp", "id": oid})
+                        continue
                     data = cpppo.dotdict()
                     source = cpppo.peekable(bytes(bytearray(q["fb"])))
                     with machine:
                         for _ in machine.run(source=source, data=data, path="request"):
                             pass
-                    ok = logix.process(("10.0.0.%d" % s, 5000 + s), data=data, **kw)
+                    ok = logix.process(PEER(s), data=data, **kw)
                     rpy = bytes(parser.enip_encode(data.response.enip)) if ok else b""
                     want_ctx = bytes(bytearray(q["fb"][12:20]))
                     if rpy and rpy[12:20] != want_ctx:
@@ -128,12 +137,16 @@ def exec_free(job):
                 oid = ids[(s, i)]
                 evs.append({"e": "inv", "id": oid})
                 try:
+                    if q.get("kind") == "end":          # the peer is gone: the server runs its end-of-session processing (an empty request)
+                        logix.process(PEER(s), data=cpppo.dotdict(), **kw)
+                        evs.append({"e": "resp", "id": oid})
+                        continue
                     data = cpppo.dotdict()
                     source = cpppo.peekable(bytes(bytearray(q["fb"])))
                     with machine:
                         for _ in machine.run(source=source, data=data, path="request"):
                             pass
-                    ok = logix.process(("10.0.0.%d" % s, 5000 + s), data=data, **kw)
+                    ok = logix.process(PEER(s), data=data, **kw)
                     rpy = bytes(parser.enip_encode(data.response.enip)) if ok else b""
                     if rpy and rpy[12:20] != bytes(bytearray(q["fb"][12:20])):
                         errors.append("session %d got a reply with another context" % s)
@@ -210,7 +223,7 @@ def main(ctx):
             return
         scheds = ss[0]["s"]
         if ctx.quick:
-            scheds = [x for x in scheds if x[3] in (11, 99) or (x[1] + 2 * x[3]) % 4 == 0]
+            scheds = [x for x in scheds if x[3] in (11, 99) or (x[1] + 2 * x[3]) % (8 if len(sc[0]["ops"]) > 2 else 4) == 0]     # (three sessions: six ordered pairs)
         for x in scheds:
             jobs.append((sc[0], x))
         if w in ("private", "mixed"):        # cold start: the other session arrives while the first one is inside logix.setup
